@@ -3,6 +3,7 @@
 package main
 
 import (
+	"strconv"
 	"fmt"
 	"os"
 	"os/exec"
@@ -247,7 +248,12 @@ func main() {
 				o["exists"] = exists(op["prefix"].(string))
 			case "setlimits":
 				h := hnd(op["h"])
-				o["mem_err"] = errs(h.SetMemoryLimit(uint64(hx.Int(op["mem"]))))
+				memv := uint64(hx.Int(op["mem"]))
+				if ms, ok := op["mem_s"].(string); ok {
+					// values that do not fit a JSON number
+					memv, _ = strconv.ParseUint(ms, 10, 64)
+				}
+				o["mem_err"] = errs(h.SetMemoryLimit(memv))
 				o["pids_err"] = errs(h.SetProcLimit(uint64(hx.Int(op["pids"]))))
 				o["cpu_err"] = errs(h.SetCPUBandwidth(uint64(hx.Int(op["quota"])), uint64(hx.Int(op["period"]))))
 				if cs, ok := op["cpuset"].(string); ok {
